@@ -12,8 +12,10 @@ TOL = 5e-9
 
 def gen_case(chk, wind=None):
     rng = chk.rng
-    sd = gen.gen_scene(rng, chk.hist, rho="const", wind=(rng.random() < 0.4) if wind is None else wind, solver={"type": "nonlinear"})
-    ac = gen.simple_wing_aircraft(N=3, b=rng.uniform(3.5, 5), sweep=rng.choice([None, 10.0]), reid=rng.random() < 0.5,
+    rnd = getattr(chk, "round", 0)
+    sd = gen.gen_scene(rng, chk.hist, rho="const", wind=(rnd % 2 == 0) if wind is None else wind, solver={"type": "nonlinear"})
+    # (chord != 1: the longitudinal reference length then differs from one)
+    ac = gen.simple_wing_aircraft(N=3, b=rng.uniform(3.5, 5), c=(0.8, 1.0, 1.25)[rnd % 3], sweep=rng.choice([None, 10.0]), reid=rng.random() < 0.5,
                                   extra={"CG": [round(rng.uniform(-0.2, 0.3), 2), 0.0, round(rng.uniform(-0.1, 0.1), 2)],
                                          "weight": round(rng.uniform(20, 60), 1)})
     st = {"velocity": round(rng.uniform(60, 120), 2), "alpha": round(rng.uniform(-2, 6), 3), "beta": round(rng.uniform(-4, 4), 3),
@@ -32,7 +34,7 @@ def check_pitch_trim(chk, MX):
     rng = chk.rng
     sd, ac, st, cs = gen_case(chk)
     kw = {}
-    if rng.random() < 0.5:
+    if getattr(chk, "round", 0) % 4 in (1, 2):          # (round 0: wind and the default lift target; 1: still air, CL given; 2: wind, CL given; 3: neither)
         kw["CL"] = round(rng.uniform(0.2, 0.6), 3)
     if rng.random() < 0.3:
         kw["Cm"] = round(rng.uniform(-0.02, 0.02), 4)
@@ -75,6 +77,11 @@ def check_trim_orientation(chk, MX):
     if rng.random() < 0.5:
         kw["CL"] = round(rng.uniform(0.2, 0.6), 3)
     sc = gen.build_scene(MX, sd, [("a", ac, st, cs)])
+    if getattr(chk, "round", 0) % 2 == 1:
+        # targets that the aircraft meets as it is (its present CL and Cm): the answer of an aircraft that is already trimmed
+        tot0 = sc.solve_forces(dimensional=False)["a"]["total"]
+        kw["CL"], kw["Cm"] = float(tot0["CL"]), float(tot0["Cm"])
+        chk.count("trim_orient:already-trimmed")
     before = api.aircraft_state(sc, "a")
     a = sc._airplanes["a"]
     W = np.array(sc._get_wind(a.p_bar), dtype=float)
@@ -89,10 +96,16 @@ def check_trim_orientation(chk, MX):
         return "trim_orient:raises:" + type(e).__name__, dict(error=repr(e), scene=sd, aircraft=ac, state=st, controls=cs, kwargs=kw)
     st2 = {"position": list(map(float, rs["position"])), "velocity": list(map(float, rs["velocity"])),
            "orientation": list(map(float, rs["orientation"])), "angular_rates": list(map(float, rs["angular_rates"]))}
-    sc2, tot = totals_at(MX, sd, ac, st2, {k: float(v) for k, v in rc.items()})
+    try:
+        sc2, tot = totals_at(MX, sd, ac, st2, {k: float(v) for k, v in rc.items()})
+    except Exception as e:
+        if getattr(chk, "round", 0) % 2 == 1 and type(e).__name__ == "SolverNotConvergedError":
+            # the aircraft was solved in the state it is in; the answer "already trimmed" must be that state
+            return "trim_orient:returned-state-not-solvable", dict(returned=st2, scene=sd, aircraft=ac, state=st, controls=cs, kwargs=kw)
+        raise
     CLt = kw.get("CL", CW)
-    if abs(tot["CL"] - CLt) > TOL or abs(tot["Cm"]) > TOL:
-        return "trim_orient:targets-not-met", dict(CL=tot["CL"], CL_target=CLt, Cm=tot["Cm"], scene=sd, aircraft=ac, state=st, controls=cs, kwargs=kw)
+    if abs(tot["CL"] - CLt) > TOL or abs(tot["Cm"] - kw.get("Cm", 0.0)) > TOL:
+        return "trim_orient:targets-not-met", dict(CL=tot["CL"], CL_target=CLt, Cm=tot["Cm"], Cm_target=kw.get("Cm", 0.0), scene=sd, aircraft=ac, state=st, controls=cs, kwargs=kw)
     after = api.aircraft_state(sc2, "a")
     e0, e1 = api.quat_to_euler_deg(before["q"]), api.quat_to_euler_deg(after["q"])
     if abs(e0[0] - e1[0]) > 1e-6 or abs(e0[2] - e1[2]) > 1e-6:
@@ -219,6 +232,7 @@ def run(chk):
     names = ["pitch_trim", "trim_orient", "target_CL", "aero_center", "errors"]
     for i in range(n):
         k = i % len(kinds)
+        chk.round = i // len(kinds)            # the dimensions that must not be left to chance are enumerated over the rounds
         try:
             sig, det = kinds[k](chk, MX)
         except Exception as e:
